@@ -33,7 +33,9 @@ def arg_order_rule(chk, src, rule, rels, callees):
                 if cal.cls is not None and ps and ps[0] in ("self", "cls"):
                     ps = ps[1:]
                 args = [a.id if isinstance(a, ast.Name) else None for a in c.args]
-                named = [(i, a) for i, a in enumerate(args) if a is not None and a in ps]
+                # positions are known up to the first `*sequence` argument only (its length is a run-time quantity)
+                star = next((i for i, a in enumerate(c.args) if isinstance(a, ast.Starred)), len(c.args))
+                named = [(i, a) for i, a in enumerate(args) if i < star and a is not None and a in ps]
                 if len(named) < 2:
                     continue
                 n += 1
@@ -350,10 +352,9 @@ def run(chk):
     chk.extra["specs_interpreted"] = sorted({c_[1] for c in cases for c_ in c.calls if isinstance(c_[1], str)})
     # inverse factor
     ed = src.func(GS, "eigh_direct")
-    inv_d = [unparse(c)[:60] for c in ast.walk(ed.node) if isinstance(c, ast.Call) and unparse(c.func).endswith("eigh") and "inverse" in unparse(c)]
     gi = src.func(GS, "get_ham_iterative")
     inv_h = [norm_stmt(s, 70) for s in ast.walk(gi.node) if isinstance(s, ast.Assign) and unparse(s.targets[0]) == "hdiag" and "inverse" in unparse(s.value)]
-    chk.ob("inverse-sibling", "eigh_direct", len(inv_d) == 1, ed.where, inv_d, "eigh(ham * inverse)", line=ed.node.lineno)
+    # eigh_direct: decided by the abstract run of eigen_selection_rule (the matrix handed to the dense solver is inverse x H, the factor applied exactly once)
     chk.ob("inverse-sibling", "get_ham_iterative.hdiag", len(inv_h) == 1, gi.where, inv_h, "hdiag = hdiag[qn_mask] * inverse", line=gi.node.lineno)
     iterative_matvec_rule(chk, src)
     ss = src.func(GS, "single_sweep")
@@ -466,19 +467,69 @@ def eigen_selection_rule(chk, src, rule):
         cfg = Sym("optimize_config", inverse=Sym("inverse"), nroots=nroots, method="1site")
         mps = Sym("mps", optimize_config=cfg)
 
+        import sympy as _sp
+        inv_s = _sp.Symbol("inverse", real=True)
+
         class Ham(Sym):
+            """linear combination c1 * H + c2 * conj(H) of the (Hermitian) effective Hamiltonian: transposition and complex conjugation both exchange H and conj(H)"""
+            def __init__(self, c1=1, c2=0):
+                super().__init__(f"({c1})*H + ({c2})*conj(H)")
+                self.c1, self.c2 = _sp.sympify(c1), _sp.sympify(c2)
+
+            @staticmethod
+            def _sc(o):
+                if isinstance(o, Sym) and o._name == "inverse":
+                    rec.append(("scaled by", "inverse"))
+                    return inv_s
+                if isinstance(o, (int, float)):
+                    return _sp.nsimplify(o)
+                raise AnalysisError(f"effective Hamiltonian combined with {o!r}")
+
             def __mul__(self, o):
-                rec.append(("scaled by", getattr(o, "_name", o)))
-                return self
+                k_ = self._sc(o)
+                return Ham(self.c1 * k_, self.c2 * k_)
 
             __rmul__ = __mul__
+
+            def __truediv__(self, o):
+                k_ = self._sc(o)
+                return Ham(self.c1 / k_, self.c2 / k_)
+
+            def __add__(self, o):
+                if not isinstance(o, Ham):
+                    raise AnalysisError(f"effective Hamiltonian + {o!r}")
+                return Ham(self.c1 + o.c1, self.c2 + o.c2)
+
+            def __sub__(self, o):
+                return Ham(self.c1 - o.c1, self.c2 - o.c2)
+
+            def __neg__(self):
+                return Ham(-self.c1, -self.c2)
+
+            @property
+            def T(self):
+                return Ham(self.c2, self.c1)
+
+            def transpose(self, *a):
+                return self.T
+
+            def conj(self):
+                return Ham(_sp.conjugate(self.c2), _sp.conjugate(self.c1))
+
+            conjugate = conj
         it = SymInterp(src, None, {"np": OpenSym("np", make=lambda t: Blob(t)), "scipy": Sym("scipy", linalg=Sym("linalg", eigh=lambda a, **k: rec.append(("eigh", a)) or (Evals("w"), Evecs("v")))),
-                                   "get_ham_direct": lambda *a: Ham("ham"), "asnumpy": lambda x: x, "sign_fix": lambda c, n_: ("sign_fix", c, n_), "isinstance": lambda x, t: False, "logger": Blob("logger")})
+                                   "get_ham_direct": lambda *a: Ham(), "asnumpy": lambda x: x, "sign_fix": lambda c, n_: ("sign_fix", c, n_), "isinstance": lambda x, t: False, "logger": Blob("logger")})
         res = it.call_function(fd, [mps, Blob("mask"), Blob("L"), Blob("R"), Blob("cmo"), None])
         if nroots == 1:
             want = (("eval", 0), ("sign_fix", ("evec", 0), 1))
         else:
             want = (("eval", ("slice", None, 3, None)), ("sign_fix", [("evec", 0), ("evec", 1), ("evec", 2)], 3))
-        ok = res == want and ("scaled by", "inverse") in rec
-        chk.ob(rule, f"chain eigh_direct[{nroots} root(s)]: first roots of the ascending spectrum of H x inverse", ok, fd.where, repr(res)[:160], repr(want)[:160], line=fd.node.lineno,
+        handed = [a for k_, a in rec if k_ == "eigh"]
+        op_ok = len(handed) == 1 and isinstance(handed[0], Ham) and _sp.simplify(handed[0].c1 - inv_s) == 0 and _sp.simplify(handed[0].c2) == 0
+        ok = res == want and op_ok
+        if nroots == 1:
+            chk.ob("inverse-sibling", "eigh_direct", op_ok, fd.where, [repr(h) for h in handed], "(inverse)*H + (0)*conj(H)", line=fd.node.lineno,
+                   detail="the dense matrix, the preconditioner diagonal and the matrix-vector product must each carry the factor `inverse` exactly once")
+        chk.ob(rule, f"chain eigh_direct[{nroots} root(s)]: first roots of the ascending spectrum of H x inverse", ok, fd.where, {"returns": repr(res)[:120], "diagonalised": [repr(h) for h in handed]},
+               {"returns": repr(want)[:120], "diagonalised": "(inverse)*H + (0)*conj(H)"}, line=fd.node.lineno,
                detail="the direct local solver must return the lowest nroots eigenvalues of (H x inverse) and exactly their eigenvectors")
